@@ -1,4 +1,5 @@
 import CCV.Model.Ops
+import CCV.Model.OpsExt
 import CCV.Drv.Util
 /-
   Line protocol of property C10 (one-operation requests; all elements are stored residues in
@@ -29,6 +30,11 @@ import CCV.Drv.Util
     applyperm <inv> <shape> <xs> <perm>
     trunc <st> <scale> <xs>
     a2b <st> <xs>       b2a <st> <bits>
+    segcs <st> <rowsize> <xs> <bits> <first>                      SegmentCumSum
+    cuckoo <numsets> <n> <b> <h> <rows> <cols> <inputbits> <hm>   CuckooHash
+    zip <k> <vec>*k          vec = elements joined by ';' (each a list); answer: rows joined by '|'
+    repeat <n> <xs>          answer: elements joined by ';'
+    tupleget <id> <vec>      vecget <id> <vec>      namedget <name> <names joined by ';'> <vec>
 -/
 namespace CCV.Drv.C10
 open CCV CCV.Ops CCV.Shape CCV.Slices CCV.Drv
@@ -93,6 +99,14 @@ def handleKernel (wide : Bool) : List String → String
     | some f, some m, some xs, some ys => showExcept (zipK f xs ys m)
     | _, _, _, _ => "BAD-OP"
   | _ => "BAD-OP"
+
+/-- a vector of arrays: elements joined by ';' (`-` = the empty vector) -/
+def parseVec? (s : String) : Option (List (List Nat)) :=
+  if s == "-" then some [] else (s.splitOn ";").mapM parseNatList?
+
+/-- rows of a zipped vector joined by '|', the entries of a row by ';' -/
+def showZip (rows : List (List (List Nat))) : String :=
+  if rows.isEmpty then "-" else "|".intercalate (rows.map fun r => ";".intercalate (r.map showList))
 
 def arithOp? : String → Option Arith
   | "add" => some .add | "sub" => some .sub | "mul" => some .mul | _ => none
@@ -192,6 +206,40 @@ def handle : List String → String
     match parseBool? inv, parseNatList? sh, parseNatList? xs, parseNatList? perm with
     | some inv, some sh, some xs, some perm => showExcept (applyPermutation inv sh xs perm)
     | _, _, _, _ => "BAD-OP"
+  | ["segcs", st, rs, xs, bits, first] =>
+    match ST.parse st, parseNat? rs, parseNatList? xs, parseNatList? bits, parseNatList? first with
+    | some st, some rs, some xs, some bits, some first => showList (segmentCumSum st rs xs bits first)
+    | _, _, _, _, _ => "BAD-OP"
+  | ["cuckoo", ns, n, b, h, rows, cols, inp, hm] =>
+    match parseNat? ns, parseNat? n, parseNat? b, parseNat? h, parseNat? rows, parseNat? cols,
+      parseNatList? inp, parseNatList? hm with
+    | some ns, some n, some b, some h, some rows, some cols, some inp, some hm =>
+      showExcept (cuckooHash inp hm ns n b h rows cols)
+    | _, _, _, _, _, _, _, _ => "BAD-OP"
+  | "zip" :: _k :: vecs =>
+    match vecs.mapM parseVec? with
+    | some vs => if vs.isEmpty then "BAD-OP" else showZip (zip vs)
+    | none => "BAD-OP"
+  | ["repeat", n, xs] =>
+    match parseNat? n, parseNatList? xs with
+    | some n, some xs => showRows (repeatV n xs)
+    | _, _ => "BAD-OP"
+  | ["tupleget", id, vec] =>
+    match parseNat? id, parseVec? vec with
+    | some id, some vs => match tupleGet (createTuple vs) id with
+      | some v => showList v
+      | none => "ERR"
+    | _, _ => "BAD-OP"
+  | ["vecget", id, vec] =>
+    match parseNat? id, parseVec? vec with
+    | some id, some vs => showExcept (vectorGet (createTuple vs) id)
+    | _, _ => "BAD-OP"
+  | ["namedget", name, names, vec] =>
+    match parseVec? vec with
+    | some vs => match namedTupleGet (names.splitOn ";") (createTuple vs) name with
+      | some v => showList v
+      | none => "ERR"
+    | none => "BAD-OP"
   | ["trunc", st, scale, xs] =>
     match ST.parse st, parseNat? scale, parseNatList? xs with
     | some st, some scale, some xs => showList (truncate st scale xs)
